@@ -116,6 +116,33 @@ def project(s):
 # reports through the public API only
 
 
+def deep_digest(s):
+    """digest of everything reachable from the System that an analysis could scribble on: node
+    payloads (params, limits, interpolation arrays), registries, phase tables"""
+    import numpy as np
+
+    def canon(x):
+        if isinstance(x, dict):
+            return {str(k): canon(v) for k, v in sorted(x.items(), key=lambda kv: str(kv[0]))}
+        if isinstance(x, (list, tuple)):
+            return [canon(v) for v in x]
+        if isinstance(x, np.ndarray):
+            return [canon(v) for v in x.tolist()]
+        if isinstance(x, (float, np.floating)):
+            return repr(float(x))
+        return repr(x) if not isinstance(x, (str, int, bool, type(None))) else x
+    g = s._g
+    nodes = {}
+    for idx in g.node_indices():
+        c = g[idx]
+        ipr = getattr(c, "_ipr", None)
+        iprd = {k: canon(v) for k, v in vars(ipr).items() if k != "_intp"} if ipr is not None else None
+        nodes[str(idx)] = {"cls": type(c).__name__, "params": canon(c._params), "limits": canon(c._limits), "ipr": iprd}
+    attrs = {k: canon(v) for k, v in g.attrs.items() if k not in ("hidx",)}
+    edges = sorted([list(g.get_edge_endpoints_by_index(e)) for e in g.edge_indices()])
+    return digest({"nodes": nodes, "attrs": attrs, "edges": edges})
+
+
 def df_canon(df):
     """DataFrame -> list of row dicts with numbers in wire format (None for a None report)"""
     if df is None:
